@@ -17,9 +17,13 @@ Two families of models:
 
 History: the identity is judged at the first (converged) point and again after every move of a sequence that
 moves ONLY the states (set_val without re-running / a new guess / the other root of a multi-root residual / one
-more solver iteration), ONLY the inputs, both, nothing (re-linearization), or an option the jax components read
-(see c02_kit.MOVES_*).  A fwd operator that is evaluated at the current point and a rev operator that is cached
-from an earlier one are not adjoint; a single linearization point cannot see that.
+more solver iteration), ONLY the inputs, both, nothing (re-linearization), or an option / a discrete input the jax
+components read (see c02_kit.MOVES_*).  A fwd operator that is evaluated at the current point and a rev operator
+that is cached from an earlier one are not adjoint; a single linearization point cannot see that.  From the second
+step on the FIRST seed vectors are used again (caches keyed on the right-hand side meet the same right-hand side at
+a moved point); every fourth G-model and 40% of the stock models carry rhs_checking solvers and declared responses
+that depend on each other (that keeps the reverse-mode solution caches alive), and there compute_totals of the
+fwd twin is compared with compute_totals of the rev twin (the identity with unit vectors).
 """
 import random
 
@@ -41,7 +45,9 @@ RULE = ('random model specs (see C01) x random seed vectors; operators: total ja
         'BalanceComp, LinearSystemComp, MetaModel comps) x who owns the solvers x root linear solver, operators of '
         'every group AND component; history: every operator pair is judged at the first point and after each move '
         'of a random sequence (states only: set_val / new guess / other root / one solver iteration; inputs only; '
-        'both; re-linearization; changed static option), all moves in random order')
+        'both; re-linearization; changed static option; changed discrete input), all moves in random order, '
+        'seed vectors of the first point repeated at every later step; every 4th G-model / 40% of the stock '
+        'models with rhs_checking + dependent declared responses, there also compute_totals fwd twin vs rev twin')
 MIN_JUDGED = {'quick': 150, 'thorough': 3500}
 REQUIRED_COUNTERS = (['obs:jacvec-duality', 'obs:apply_linear-duality', 'obs:solve_linear-duality',
                       'obs:subgroup-operators', 'obs:repeated-src_indices-model', 'obs:matfree-model',
@@ -55,6 +61,8 @@ ASSUMPTIONS = ['linear solves are judged only when no linear solver reported non
                'tolerance: 1e-10 * (|w||Av| + |A^T w||v|) for products, 1e-7 relative for iterative solves',
                'the identity is a property of the linearization at the CURRENT inputs/outputs, converged or not: after '
                'every move the operators are linearized again (run_linearize / linearize=True) before they are judged',
+               'the fwd-mode and the rev-mode twin are moved by the same numbers and the same deterministic nonlinear '
+               'solves, so they are linearized at the same point up to round-off',
                'stock family: all residuals keep |dR/dy| >= 1 at every visited point (two-root quadratics, states '
                'perturbed by <= 0.3, independent variables in [0.2, 1]), so no linear system is near singular']
 SHARD_TIMEOUT = {'quick': 1200, 'thorough': 5400}
